@@ -172,6 +172,14 @@ func (cc *CheckCtx) runTask(t Task) {
 	if t.Tier == "thorough" && cc.Tier != "thorough" {
 		return
 	}
+	if t.Opts.TrackAllocs && t.Opts.AllocFilter == nil {
+		sites, _ := cc.Extra["allocation_sites_vs_escape_analysis"].(map[string]string)
+		if sites == nil {
+			sites = map[string]string{}
+			cc.Extra["allocation_sites_vs_escape_analysis"] = sites
+		}
+		t.Opts.AllocFilter = cc.W.allocFilterFor(t.Pkg, sites)
+	}
 	fr := cc.W.RunFunc(t.Pkg, t.Func, t.Opts)
 	key := t.Pkg + "." + t.Func
 	cc.Funcs[key] = true
@@ -199,7 +207,15 @@ func (cc *CheckCtx) runTask(t Task) {
 			to = 120
 		}
 	}
-	res := Discharge(fr, to, func(o *Oblig) bool { return re == nil || re.MatchString(o.Name) })
+	// obligations whose statement is assumed by later obligations (lemmas, invariants, callee
+	// preconditions, variants) are always discharged; Match only selects among the others
+	res := Discharge(fr, to, func(o *Oblig) bool {
+		switch o.Kind {
+		case "lemma", "inv", "pre", "variant", "cut", "repr":
+			return true
+		}
+		return re == nil || re.MatchString(o.Name)
+	})
 	// vacuity guard: the assumptions of the run must be satisfiable
 	cc.vacuity(fr)
 	for i := range res {
@@ -542,6 +558,49 @@ func init() {
 		Assumptions: []string{
 			"error values are compared with the reference fold, which reports the FIRST defect from left to right; for vectors with several defects this is stronger than the property (which only speaks about single-defect vectors)",
 			"v4.0 'CVSS:4.0' followed by something other than '/' is specified as ErrInvalidMetricValue, as the code answers (region left open by the property)",
+		},
+	}
+}
+
+func init() {
+	allocOpts := RunOpts{TrackAllocs: true, AppendMustFit: true}
+	props["C17"] = &PropDef{
+		ID: "C17",
+		Tasks: func(tier string) []Task {
+			var ts []Task
+			for _, p := range allPkgs {
+				T := typeOf(p)
+				ts = append(ts, Task{Pkg: p, Func: "(" + T + ").Vector", Opts: allocOpts, Match: `/post/one_allocation|/alloc/|/lemma/|/call/|/safety/`, Timeout: 60})
+				ts = append(ts, Task{Pkg: p, Func: "lenVec", Opts: allocOpts, Match: `/post/`, Timeout: 60})
+				ts = append(ts, Task{Pkg: p, Func: "ParseVector", Opts: RunOpts{TrackAllocs: true}, Match: `/post/allocation_budget|/loop\d|/lemma/|/call/|/pool/`, Timeout: 60})
+				ts = append(ts, Task{Pkg: p, Func: "(" + T + ").Get", Opts: RunOpts{TrackAllocs: true}, Match: `/post/no_allocation`})
+				ts = append(ts, Task{Pkg: p, Func: "(*" + T + ").Set", Opts: RunOpts{TrackAllocs: true}, Match: `/post/no_allocation`})
+				for _, f := range []string{"BaseScore", "TemporalScore", "EnvironmentalScore", "Impact", "Exploitability"} {
+					if p == "40" {
+						continue
+					}
+					ts = append(ts, Task{Pkg: p, Func: "(" + T + ")." + f, Opts: RunOpts{TrackAllocs: true, NoSafety: true}, Match: `/post/no_allocation`})
+				}
+				if p != "20" {
+					ts = append(ts, Task{Pkg: p, Func: "Rating", Opts: RunOpts{TrackAllocs: true}, Match: `/post/no_allocation`})
+				}
+				if p == "20" {
+					ts = append(ts, Task{Pkg: p, Func: "split", Opts: RunOpts{TrackAllocs: true}, Match: `/post/no_allocation`})
+				}
+				if p == "30" || p == "31" {
+					ts = append(ts, Task{Pkg: p, Func: "splitCouple", Opts: RunOpts{TrackAllocs: true}, Match: `/post/no_allocation`})
+					ts = append(ts, Task{Pkg: p, Func: "(*kvm).Set", Opts: RunOpts{TrackAllocs: true}, Match: `/post/no_allocation`})
+				}
+			}
+			ts = append(ts, Task{Pkg: "40", Func: "(CVSS40).Nomenclature", Opts: RunOpts{TrackAllocs: true}, Match: `/post/no_allocation`})
+			return ts
+		},
+		Trusted: append(append([]string{}, trustedCommon...),
+			"T9 cost model of the ghost allocation counter: make/new/composite literals that the compiler's escape analysis (go build -gcflags=-m, re-run on the scratch copy every time) reports as heap allocations, append beyond capacity, boxing of non-pointer values; runtime-internal allocations and a cold sync.Pool are outside the model",
+			"T6 the []byte header is reinterpreted as a string header without copying"),
+		Assumptions: []string{
+			"steady state: (*sync.Pool).Get returns a recycled 14-slot slice (no allocation)",
+			"the measured quantity of the property (testing.AllocsPerRun) is not executed by this check; the ghost counter is proved under the cost model",
 		},
 	}
 }
